@@ -6,6 +6,7 @@ open Dvid.Ids
 structure IdSt where
   mu : Mut := Mut.init 0 0
   lab : Lab := Lab.init
+  nx : Nx := Nx.set 0
 
 def idOps (st : IdSt) (w : List String) : Option (IdSt × String) :=
   match w with
@@ -32,6 +33,16 @@ def idOps (st : IdSt) (w : List String) : Option (IdSt × String) :=
     match (if vs == "-" then some [] else (vs.splitOn ",").mapM natArg) with
     | some vs => some ({ st with lab := st.lab.reload vs }, "ok")
     | none => some (st, "bad-op")
+  | ["nx.set", n] =>
+    match natArg n with
+    | some n => some ({ st with nx := Nx.set n }, "ok")
+    | none => some (st, "bad-op")
+  | ["nx.one"] => let r := st.nx.alloc1; some ({ st with nx := r.1 }, s!"ok {r.2}")
+  | ["nx.many", n] =>
+    match natArg n with
+    | some n => let r := st.nx.allocN n; some ({ st with nx := r.1 }, s!"ok {r.2.1} {r.2.2}")
+    | none => some (st, "bad-op")
+  | ["nx.restart"] => some ({ st with nx := st.nx.restart }, "ok")
   | ["lab.max"] => some (st, s!"ok {st.lab.maxRepo}")
   | _ => none
 
